@@ -42,6 +42,7 @@ include!("suite_core.rs");
 include!("suite_rot.rs");
 include!("suite_codec.rs");
 include!("suite_init.rs");
+include!("suite_beacon.rs");
 
 pub struct State {
     pure_: PureState,
@@ -81,6 +82,9 @@ impl State {
             return r;
         }
         if let Some(r) = self.init.step(&toks) {
+            return r;
+        }
+        if let Some(r) = beacon_step(&toks) {
             return r;
         }
         "bad-op".to_string()
